@@ -44,7 +44,7 @@ impl<T> Mutex<T> {
              subst=[(r"Box<\[AtomicF64\]>", "Box<[f64]>", "TYPE-SUBST AtomicF64 cells as f64")]),
         dict(file="src/solve/vanilla.rs", path="impl MutexRegretInfoset", members=[
             dict(path="fn into_avg_strat", ret="out", vis="pub ", obligation="C05.V.into_avg_strat",
-                 rules=["R3", "R1", "R7", "R9", "R12", "R10"],
+                 rules=["R3", "R1", "R2", "R7", "R9", "R12", "R10"],
                  contract="requires self.cum_strat.inner@.len() >= 1,\nensures\n" + AVG_POST % dict(old="self.cum_strat.inner@")),
         ]),
     ],
